@@ -7,7 +7,7 @@ from __future__ import annotations
 
 import json
 
-from mc.drivers import bpm
+from mc.drivers import bpm, ladder
 from mc.drivers.scenarios import SCENARIOS
 from mc.engine import e2
 from mc.engine.core import Collector, Result, Violation
@@ -32,20 +32,31 @@ def oracle(sc, ctx, program):
     return out
 
 
+def judge(h):
+    out, seen = [], set()
+    for rule, msg in validate(json.loads(h.to_json())):
+        if rule not in seen:
+            seen.add(rule)
+            out.append((rule, msg))
+    return out
+
+
 def run(tier: str, seed: int) -> Result:
     col = Collector()
     r = e2.explore(SCENARIOS, oracle, PLAN[tier])
     for sig, msg, case in r.fails:
         col.add(sig, msg, case)
+    n_ladder = ladder.run_ladder(tier, judge, col)
     cov = {
         "states": r.states,
         "transitions": r.transitions,
         "traces_validated_against_impl": r.transitions,
-        "evaluations": r.complete_programs,
+        "evaluations": r.complete_programs + n_ladder,
         "distinct_nontrivial": r.nontrivial,
         "rule": "state = builder-call prefix (replayed on fresh builders); every prefix of every scenario up to the free-call bound "
         "is extended by the default completion to a complete well-formed program and validated by R2; non-trivial = program "
-        "uses a non-local wire, an order edge, a multi-output op, a constant, a nested container, control flow or a call",
+        "uses a non-local wire, an order edge, a multi-output op, a constant, a nested container, control flow or a call; plus the size "
+        "ladders of mc/drivers/ladder.py (every family x every size x host)",
         "samples": r.samples or [{"scenario": "D1", "program": []}],
         "exhaustive": True,
         "plan": PLAN[tier],
@@ -55,11 +66,15 @@ def run(tier: str, seed: int) -> Result:
         "programs_where_a_builder_call_raised": r.builder_raised,
         "builder_raised_samples": r.raised_samples,
         "feature_counts": r.features,
+        "ladder_cases": n_ladder,
+        "ladder": {"families": sorted(ladder.FAMILIES), "sizes": ladder.SIZES[tier], "caps": ladder.CAPS},
     }
     return Result(cov, col.violations, ["R2 validator: mc/ref/validate.py (transcription of hugr-core validate.rs / ops/validate.rs)"])
 
 
 def replay(case) -> list[Violation]:
+    if "ladder" in case:
+        return [Violation(s, m, case) for s, m in ladder.replay_ladder(case, judge)]
     sc = SCENARIOS[case["scenario"]]
     ctx = bpm.run(sc, case["program"])
     return [Violation(s, m, case) for s, m in oracle(sc, ctx, case["program"])]
